@@ -27,35 +27,53 @@ Inductive reckind := KSeq | KSeqRecord | KCircularRecord.
    the sequence, an identity standing for id (name, description, dbxrefs are carried,
    never inspected), the feature table, the "topology" annotation when there is one,
    the per-letter annotation tracks *)
+(* one line of the COMMENT block AssemblyManager writes into the product *)
+Inductive cline :=
+| LGenerated                   (* "Generated with moclo v<version>" *)
+| LVector (id : nat)           (* "Vector: <id of the vector's record>" *)
+| LModules (ids : list nat).   (* "Modules: <ids of the modules' records, in argument order>" *)
+
+(* an annotation value other than the topology and the reference list *)
+Inductive aval := AStr (s : string) | AComment (l : list cline).
+
+(* record.annotations: the "topology" entry, the "references" entry (a list whose elements are
+   compared with ==: Reference objects, interned), and the other entries in insertion order *)
+Record annots := AN {
+  an_topology : option string;
+  an_references : option (list qcit);
+  an_other : list (string * aval)
+}.
+Definition an_empty : annots := AN None None [].
+
 Record pyrecord := PR {
   pr_kind : reckind;
   pr_seq : word;
   pr_id : nat;
   pr_features : list feature;
-  pr_annotations : option string;          (* annotations.get("topology") *)
-  pr_letter_annotations : list (list Z)
+  pr_annotations : annots;
+  pr_letter_annotations : list (list Z);
+  pr_name : nat                             (* record.name, interned; 0 = "<unknown name>" *)
 }.
 
-Definition pr_name (r : pyrecord) : unit := tt.
 Definition pr_description (r : pyrecord) : unit := tt.
 Definition pr_dbxrefs (r : pyrecord) : unit := tt.
 
 Definition to_record (r : pyrecord) : record := R (pr_seq r) (pr_features r) (pr_letter_annotations r).
 
 (* Seq(...) / record.seq as a value of its own *)
-Definition mk_Seq (w : word) : pyrecord := PR KSeq w 0 [] None [].
+Definition mk_Seq (w : word) : pyrecord := PR KSeq w 0 [] an_empty [] 0.
 Definition py_seq (r : pyrecord) : pyrecord := mk_Seq (pr_seq r).
 
 (* SeqRecord(seq, id, name, description, dbxrefs, features, annotations, letter_annotations) *)
-Definition mk_SeqRecord (seq : pyrecord) (id : nat) (_ _ _ : unit) (features : list feature)
-           (annotations : option string) (letter_annotations : list (list Z)) : pyrecord :=
-  PR KSeqRecord (pr_seq seq) id features annotations letter_annotations.
+Definition mk_SeqRecord (seq : pyrecord) (id : nat) (name : nat) (_ _ : unit) (features : list feature)
+           (annotations : annots) (letter_annotations : list (list Z)) : pyrecord :=
+  PR KSeqRecord (pr_seq seq) id features annotations letter_annotations name.
 
 (* type(self)(seq=..., id=..., ..., features=..., annotations=..., letter_annotations=...)
    on a CircularRecord whose annotations were those of a CircularRecord already *)
-Definition mk_CircularRecord_kw (seq : pyrecord) (id : nat) (_ _ _ : unit) (features : list feature)
-           (annotations : option string) (letter_annotations : list (list Z)) : pyrecord :=
-  PR KCircularRecord (pr_seq seq) id features annotations letter_annotations.
+Definition mk_CircularRecord_kw (seq : pyrecord) (id : nat) (name : nat) (_ _ : unit) (features : list feature)
+           (annotations : annots) (letter_annotations : list (list Z)) : pyrecord :=
+  PR KCircularRecord (pr_seq seq) id features annotations letter_annotations name.
 
 Definition is_SeqRecord (r : pyrecord) : bool :=
   match pr_kind r with KSeq => false | _ => true end.
@@ -65,11 +83,51 @@ Definition is_CircularRecord (r : pyrecord) : bool :=
 (* copy.deepcopy: values are immutable here *)
 Definition py_deepcopy {A} (x : A) : A := x.
 
-(* annotations restricted to the "topology" key *)
-Definition ann_has_topology (a : option string) : bool := negb (is_none a).
-Definition ann_set_topology (a : option string) (v : string) : option string := Some v.
-Definition ann_get_topology (a : option string) (default : string) : string :=
-  match a with Some v => v | None => default end.
+(* "topology" in annotations, annotations["topology"] = v, annotations.get("topology", default) *)
+Definition ann_has_topology (a : annots) : bool := negb (is_none (an_topology a)).
+Definition ann_set_topology (a : annots) (v : string) : annots := AN (Some v) (an_references a) (an_other a).
+Definition ann_get_topology (a : annots) (default : string) : string :=
+  match an_topology a with Some v => v | None => default end.
+
+Definition aval_eqb (a b : aval) : bool :=
+  match a, b with
+  | AStr s, AStr t => String.eqb s t
+  | AComment l, AComment m =>
+    (fix go (l m : list cline) : bool :=
+       match l, m with
+       | [], [] => true
+       | x :: l', y :: m' =>
+         (match x, y with
+          | LGenerated, LGenerated => true
+          | LVector i, LVector j => Nat.eqb i j
+          | LModules i, LModules j => (fix eqs (i j : list nat) : bool :=
+                                         match i, j with [], [] => true | a :: i', b :: j' => Nat.eqb a b && eqs i' j' | _, _ => false end) i j
+          | _, _ => false
+          end) && go l' m'
+       | _, _ => false
+       end) l m
+  | _, _ => false
+  end.
+Fixpoint other_get (d : list (string * aval)) (k : string) : option aval :=
+  match d with [] => None | (k0, v) :: r => if String.eqb k0 k then Some v else other_get r k end.
+(* d[k] = v on an insertion-ordered dictionary *)
+Fixpoint other_set (d : list (string * aval)) (k : string) (v : aval) : list (string * aval) :=
+  match d with
+  | [] => [(k, v)]
+  | (k0, v0) :: r => if String.eqb k0 k then (k0, v) :: r else (k0, v0) :: other_set r k v
+  end.
+
+(* Biopython, SeqRecord.__getitem__(slice): only "molecule_type" survives *)
+Definition ann_sliced (a : annots) : annots :=
+  AN None None (match other_get (an_other a) "molecule_type" with Some v => [("molecule_type"%string, v)] | None => [] end).
+(* Biopython, SeqRecord.__add__: the entries present and equal on both sides *)
+Definition ann_common (a b : annots) : annots :=
+  AN (match an_topology a, an_topology b with
+      | Some x, Some y => if String.eqb x y then Some x else None | _, _ => None end)
+     (match an_references a, an_references b with
+      | Some x, Some y => if qcits_eqb x y then Some x else None | _, _ => None end)
+     (filter (fun kv => match other_get (an_other b) (fst kv) with Some v => aval_eqb (snd kv) v | None => false end)
+             (an_other a)).
 
 (* len(x), str(x) *)
 Class PyLen (A : Type) := py_len_of : A -> Z.
@@ -119,18 +177,18 @@ Definition bio_getslice (r : pyrecord) (lo hi : option Z) : pyrecord :=
   let a := match lo with None => 0 | Some i => py_norm n i end in
   let b := match hi with None => n | Some i => py_norm n i end in
   match pr_kind r with
-  | KSeq => PR KSeq (py_slice (pr_seq r) lo hi) 0 [] None []
+  | KSeq => PR KSeq (py_slice (pr_seq r) lo hi) 0 [] an_empty [] 0
   | _ =>
     let b' := Z.max a b in
     let s := slice_record a b' (to_record r) in
-    PR KSeqRecord (rseq s) (pr_id r) (rfeats s) (pr_annotations r) (rtracks s)
+    PR KSeqRecord (rseq s) (pr_id r) (rfeats s) (ann_sliced (pr_annotations r)) (rtracks s) (pr_name r)
   end.
 
 (* super(CircularRecord, self).__getitem__(index) for a slice index *)
 Definition bio_getitem_slice (r : pyrecord) (index : option Z * option Z) : pyrecord :=
   let k := match pr_kind r with KSeq => KSeq | _ => KSeqRecord end in
   let s := bio_getslice r (fst index) (snd index) in
-  PR k (pr_seq s) (pr_id s) (pr_features s) (pr_annotations s) (pr_letter_annotations s).
+  PR k (pr_seq s) (pr_id s) (pr_features s) (pr_annotations s) (pr_letter_annotations s) (pr_name s).
 
 (* isinstance(x, (Seq, SeqRecord)): every value of type pyrecord is one *)
 Definition py_isinstance_seq_or_record (r : pyrecord) : bool := true.
@@ -142,7 +200,10 @@ Definition bio_add (x y : pyrecord) : pyrecord :=
   | _, _ =>
     let c := concat_record (to_record x) (to_record y) in
     PR KSeqRecord (rseq c) (if is_SeqRecord x then pr_id x else pr_id y) (rfeats c)
-       (if is_SeqRecord x then if is_SeqRecord y then None else pr_annotations x else pr_annotations y) []
+       (if is_SeqRecord x then if is_SeqRecord y then ann_common (pr_annotations x) (pr_annotations y)
+                               else pr_annotations x else pr_annotations y) []
+       (if is_SeqRecord x then if is_SeqRecord y then (if Nat.eqb (pr_name x) (pr_name y) then pr_name x else 0)
+                               else pr_name x else pr_name y)
   end.
 
 (* Seq.upper(), Seq.reverse_complement() *)
@@ -213,9 +274,9 @@ Inductive ftype_t := FType (source : bool) (other : nat).
 Definition feat_type (f : feature) : ftype_t := FType (fsource f) (ftype f).
 Definition ftype_is_source (t : ftype_t) : bool := match t with FType s _ => s end.
 Definition feat_id (f : feature) : unit := tt.
-Definition feat_qualifiers (f : feature) : nat := fquals f.
+Definition feat_qualifiers (f : feature) : quals := fquals f.
 (* SeqFeature(location=, type=, id=, qualifiers=) *)
-Definition mk_SeqFeature (l : option pyloc) (t : ftype_t) (_ : unit) (q : nat) : feature :=
+Definition mk_SeqFeature (l : option pyloc) (t : ftype_t) (_ : unit) (q : quals) : feature :=
   match t with FType s o => F s o q (loc_of_pyloc l) end.
 
 (* ---------- Bio.Restriction --------------------------------------------- *)
@@ -249,12 +310,12 @@ Definition ent_is (a b : entity) : bool := Nat.eqb (ent_id a) (ent_id b).
 Definition py_add_as_source (src dst : pyrecord) : pyrecord :=
   PR (pr_kind dst) (pr_seq dst) (pr_id dst)
      (pr_features dst ++ [source_feature (pr_id src) (py_len (pr_seq dst))])
-     (pr_annotations dst) (pr_letter_annotations dst).
+     (pr_annotations dst) (pr_letter_annotations dst) (pr_name dst).
 
 (* ---------- AssemblyManager ---------------------------------------------- *)
 
 Record asmgr := mk_AssemblyManager {
-  am_vector : entity; am_modules : list entity; am_elements : list entity; am_name : unit; am_id : unit }.
+  am_vector : entity; am_modules : list entity; am_elements : list entity; am_name : nat; am_id : nat }.
 
 (* dictionary keys are Seq objects: equal when their text is equal (case-sensitive) *)
 Definition seq_keq (a b : pyrecord) : bool := word_eqb (pr_seq a) (pr_seq b).
@@ -267,16 +328,16 @@ Definition dict_pop {V} (keq : pyrecord -> pyrecord -> bool) (d : list (pyrecord
   match dict_get keq d k with Some v => Ok (v, dict_remove keq d k) | None => Err (XKeyError (KeySeq (pr_seq k))) end.
 
 (* SeqRecord(seq) with default id, no features, empty annotations *)
-Definition mk_SeqRecord1 (seq : pyrecord) : pyrecord := PR KSeqRecord (pr_seq seq) 0 [] None [].
+Definition mk_SeqRecord1 (seq : pyrecord) : pyrecord := PR KSeqRecord (pr_seq seq) 0 [] an_empty [] 0.
 
 (* CircularRecord(record) (record.py:43-85): copies the record; a topology annotation other
    than "circular" (any case) is refused with ValueError *)
 Definition bio_CircularRecord_of (r : pyrecord) : exc pyrecord :=
-  match pr_annotations r with
+  match an_topology (pr_annotations r) with
   | Some t => if String.eqb (str_lower t) "circular" then
-                Ok (PR KCircularRecord (pr_seq r) (pr_id r) (pr_features r) (pr_annotations r) (pr_letter_annotations r))
+                Ok (PR KCircularRecord (pr_seq r) (pr_id r) (pr_features r) (pr_annotations r) (pr_letter_annotations r) (pr_name r))
               else Err XValueError
-  | None => Ok (PR KCircularRecord (pr_seq r) (pr_id r) (pr_features r) None (pr_letter_annotations r))
+  | None => Ok (PR KCircularRecord (pr_seq r) (pr_id r) (pr_features r) (pr_annotations r) (pr_letter_annotations r) (pr_name r))
   end.
 
 (* ---------- core/_utils.add_as_source, parts.characterize: their primitives ---------- *)
@@ -290,7 +351,7 @@ Definition mk_SeqFeature3 (l : option pyloc) (t : string) (q : nat) : feature :=
   F (String.eqb t "source") 0 q (loc_of_pyloc l).
 (* record.features.append(feature) *)
 Definition rec_append_feature (r : pyrecord) (f : feature) : pyrecord :=
-  PR (pr_kind r) (pr_seq r) (pr_id r) (pr_features r ++ [f]) (pr_annotations r) (pr_letter_annotations r).
+  PR (pr_kind r) (pr_seq r) (pr_id r) (pr_features r ++ [f]) (pr_annotations r) (pr_letter_annotations r) (pr_name r).
 
 (* a class object as characterize sees it: its own description, whether it is abstract, its
    direct subclasses in __subclasses__() order *)
@@ -306,12 +367,12 @@ Definition mk_entity (p : pyclass) (r : pyrecord) : entity := ENT 0 (pcl_cls p) 
 (* SeqRecord.__init__(self, seq, id, name, description, dbxrefs, features, annotations,
    letter_annotations) reached through super() from a subclass of the given kind; `annotations`
    is None or a dictionary, of which the topology entry is kept *)
-Definition bio_SeqRecord_init (k : reckind) (seq : pyrecord) (id : nat) (_ _ _ : unit) (features : list feature)
-           (annotations : option (option string)) (letter_annotations : list (list Z)) : pyrecord :=
-  PR k (pr_seq seq) id features (match annotations with Some a => a | None => None end) letter_annotations.
+Definition bio_SeqRecord_init (k : reckind) (seq : pyrecord) (id : nat) (name : nat) (_ _ : unit) (features : list feature)
+           (annotations : option annots) (letter_annotations : list (list Z)) : pyrecord :=
+  PR k (pr_seq seq) id features (match annotations with Some a => a | None => an_empty end) letter_annotations name.
 
 (* record.annotations as a dictionary object (a SeqRecord always has one) *)
-Definition rec_annotations_dict (r : pyrecord) : option (option string) := Some (pr_annotations r).
+Definition rec_annotations_dict (r : pyrecord) : option annots := Some (pr_annotations r).
 
 (* SeqRecord.reverse_complement(id=, name=, description=, features=, annotations=,
    letter_annotations=, dbxrefs=) (Biopython): a plain SeqRecord with the reverse complement
@@ -322,7 +383,8 @@ Definition bio_reverse_complement (r : pyrecord) (id name description features a
   : pyrecord :=
   let rc_ := rc_record (to_record r) in
   PR KSeqRecord (rseq rc_) (pr_id r) (if features then rfeats rc_ else [])
-     (if annotations then pr_annotations r else None) (if letter_annotations then rtracks rc_ else []).
+     (if annotations then pr_annotations r else an_empty) (if letter_annotations then rtracks rc_ else [])
+     (if name then pr_name r else 0).
 
 (* ---------- registries (registry/base.py) ------------------------------------------------ *)
 
